@@ -75,19 +75,56 @@ pid_t g_mainTid = 0;
 thread_local int t_childIndex = -1;
 bool g_childFirst[kMaxChildren];  // decided at LB_BEGIN, before any worker exists
 
+// ---- robustness against a restructured library ------------------------------
+// The token protocol assumes that both solves of a step run concurrently.  A
+// library that runs them differently while keeping every property (deferred
+// launch, one solve on the calling thread before the other is started, a
+// persistent worker) must not dead-lock the harness:
+//  * sequential rule: a solve executed by the creator thread while no child
+//    thread exists cannot overlap the other solve; its sync points pass
+//    through (deterministic, no waiting);
+//  * give-up rule: a thread that waits for a turn held by a solve that has not
+//    even started for kGiveUpSeconds of real time stops the scheduler for the
+//    rest of the process ("degraded"): all sync points pass through, the trace
+//    records "sched degraded" instead of a grant hash, so that the runs of a
+//    process stay comparable with each other and with fresh processes.
+constexpr double kGiveUpSeconds = 5.0;
+std::atomic<bool> g_degraded{false};
+std::atomic<int> g_arrived[2];
+
+double realSeconds() {
+  struct timespec ts;
+  syscall(SYS_clock_gettime, CLOCK_MONOTONIC, &ts);  // the raw kernel clock, not the scripted one
+  return (double)ts.tv_sec + 1e-9 * (double)ts.tv_nsec;
+}
+
 void futexWake() {
   syscall(SYS_futex, reinterpret_cast<int *>(&g_turn), FUTEX_WAKE_PRIVATE,
           INT_MAX, nullptr, nullptr, 0);
 }
 
-void waitTurn(int w) {
+bool waitTurn(int w) {
   int spins = 0;
+  double waitingSince = -1;
   for (;;) {
+    if (g_degraded.load(std::memory_order_acquire)) return false;
     int cur = g_turn.load(std::memory_order_acquire);
-    if (cur == w) return;
+    if (cur == w) return true;
     if (++spins < 64) {
       sched_yield();
       continue;
+    }
+    if (cur >= 0 && cur < 2 && g_arrived[cur].load(std::memory_order_acquire) == 0) {
+      // the holder of the turn has not started its solve
+      double now = realSeconds();
+      if (waitingSince < 0) waitingSince = now;
+      else if (now - waitingSince > kGiveUpSeconds) {
+        g_degraded.store(true, std::memory_order_release);
+        futexWake();
+        return false;
+      }
+    } else {
+      waitingSince = -1;
     }
     struct timespec ts = {0, 2000000};  // 2 ms safety net against lost wakes
     syscall(SYS_futex, reinterpret_cast<int *>(&g_turn), FUTEX_WAIT_PRIVATE,
@@ -154,6 +191,8 @@ extern "C" void coloquinte_verif_point(int site, const void *obj) {
     g_nChildren.store(0, std::memory_order_relaxed);
     for (auto &c : g_childState) c.store(0, std::memory_order_relaxed);
     g_finished[0] = g_finished[1] = false;
+    g_arrived[0].store(0, std::memory_order_relaxed);
+    g_arrived[1].store(0, std::memory_order_relaxed);
     g_holder = -1;
     g_firstFinisher = -1;
     g_stepSwitches = 0;
@@ -198,6 +237,18 @@ extern "C" void coloquinte_verif_point(int site, const void *obj) {
     return;
   }
   if (!g_stepActive.load(std::memory_order_acquire)) return;
+  if (g_degraded.load(std::memory_order_acquire)) return;
+  if (g_mode != sim::SM_FREE && t_childIndex < 0 && (pid_t)syscall(SYS_gettid) == g_mainTid &&
+      g_nChildren.load(std::memory_order_acquire) == 0) {
+    // sequential rule: the creator runs this solve and no other thread exists
+    int ws = (obj == g_xObj) ? 0 : 1;
+    if (site == SOLVE_BEGIN) g_stats.sequentialSolves++;
+    if (site == SOLVE_END) {
+      g_finished[ws] = true;
+      if (g_firstFinisher < 0) g_firstFinisher = ws;
+    }
+    return;
+  }
   if (t_childIndex >= 0 && t_childIndex < kMaxChildren) {
     int expected = 0;
     g_childState[t_childIndex].compare_exchange_strong(expected, 1, std::memory_order_acq_rel);
@@ -217,7 +268,8 @@ extern "C" void coloquinte_verif_point(int site, const void *obj) {
   }
   switch (site) {
     case SOLVE_BEGIN:
-      waitTurn(w);
+      g_arrived[w].store(1, std::memory_order_release);
+      if (!waitTurn(w)) return;
       grant(w, site);
       return;
     case SOLVE_BUILT:
@@ -230,7 +282,7 @@ extern "C" void coloquinte_verif_point(int site, const void *obj) {
       }
       g_turn.store(next, std::memory_order_release);
       futexWake();
-      waitTurn(w);
+      if (!waitTurn(w)) return;
       grant(w, site);
       return;
     }
@@ -287,7 +339,8 @@ void *trampoline(void *p) {
 extern "C" int pthread_create(pthread_t *thread, const pthread_attr_t *attr, void *(*fn)(void *), void *arg) {
   using Real = int (*)(pthread_t *, const pthread_attr_t *, void *(*)(void *), void *);
   static Real real = reinterpret_cast<Real>(dlsym(RTLD_NEXT, "pthread_create"));
-  bool controlled = g_mode != sim::SM_OFF && g_mode != sim::SM_FREE && g_stepActive.load(std::memory_order_acquire) &&
+  bool controlled = g_mode != sim::SM_OFF && g_mode != sim::SM_FREE && !g_degraded.load(std::memory_order_acquire) &&
+                    g_stepActive.load(std::memory_order_acquire) &&
                     (pid_t)syscall(SYS_gettid) == g_mainTid;
   if (!controlled) return real(thread, attr, fn, arg);
   long long epoch = g_creatorEpoch.fetch_add(1, std::memory_order_acq_rel) + 1;  // creating a thread is progress
@@ -346,6 +399,7 @@ void schedEnd(SchedStats *out) {
   if (out) {
     *out = g_stats;
     if (g_mode == SM_FREE) out->freeDelays = g_freeCursor.load();
+    out->degraded = g_degraded.load(std::memory_order_acquire);
   }
   g_mode = SM_OFF;
   g_choices = nullptr;
